@@ -630,10 +630,11 @@ def s_init_input(b: MB):
                 b.node("Expand", [x2, sw], TP.FLOAT, [None] * len(x2.shape), const=False)
                 b.tag("initinput_expand")
             else:
-                # (a Dropout whose ratio is an initializer-input is replaced whenever training_mode is off, which
-                #  leaves the initializer-input without a consumer: predicate of C04-D6 — not generated)
-                b.node("Cast", [w], TP.FLOAT, shape, const=False, to=TP.FLOAT)
-                b.tag("initinput_cast")
+                # the Dropout is replaced (training_mode off) and the initializer-input loses its only consumer:
+                # it must nevertheless keep its default (C04-D6, fixed)
+                rw = b.add_init(np.array(0.0, dtype=np.float32), as_input=True)
+                b.node("Dropout", [x2, rw, b.const(np.array(False))], TP.FLOAT, x2.shape, const=False)
+                b.tag("initinput_dropout_ratio")
 
 
 def s_const_nodes(b: MB):
